@@ -165,6 +165,7 @@ type World struct {
 	senders  map[string]vivid.ActorRef // logical name -> last Sender() captured
 	gates    map[string]chan struct{}
 	gateOpen map[string]bool
+	closing  bool
 	Futures  map[int]*FutureRec
 	instSeq  int
 	consult  map[string]int // decision-maker invocations per supervisor path
@@ -241,6 +242,7 @@ func (w *World) Now() int64 { return int64(time.Since(w.T0)) }
 // Close stops the system and releases everything so that the bubble can end.
 func (w *World) Close() {
 	w.mu.Lock()
+	w.closing = true
 	for name, g := range w.gates {
 		if !w.gateOpen[name] {
 			w.gateOpen[name] = true
@@ -275,6 +277,11 @@ func (w *World) gate(name string) chan struct{} {
 	if !ok {
 		g = make(chan struct{})
 		w.gates[name] = g
+		if w.closing {
+			// the case is over: a gate first reached during the clean-up is open
+			w.gateOpen[name] = true
+			close(g)
+		}
 	}
 	return g
 }
